@@ -66,6 +66,20 @@ def build(cfg, values=None):
                 for k, v in oracle_kG0(ctx, p, model, p.Nxx_cte, p.Nyy_cte, p.Nxy_cte, s=s).items():
                     H0[k] = H0[k] + v if k in H0 else v
             H = symmetric_completion(H0, shift=off)
+        elif variant == 'offdiag':
+            # the block placed OFF the diagonal of a larger matrix (rows from row0, columns from col0 >= row0 + size): every entry
+            # lies above the diagonal there, so the whole (unsymmetrised) Hessian block must be present
+            off = cfg.get('off', 2)
+            size = 2 * size0 + off + 1
+            raw = p.calc_k0(size=size, row0=off, col0=off + size0, silent=True, finalize=False)
+            K = {}
+            for r_, c_, v_ in zip(raw.row, raw.col, raw.data):
+                if isinstance(v_, (int, float)) and v_ == 0:
+                    continue
+                kk = (int(r_), int(c_))
+                K[kk] = K[kk] + v_ if kk in K else v_
+            Hs = symmetric_completion(oracle_k0(ctx, p, model, s=s))
+            H = {(off + r_, off + size0 + c_): v_ for (r_, c_), v_ in Hs.items()}
         elif variant == 'y1y2':
             p.y1, p.y2 = ctx.V('y1'), ctx.V('y2')
             K = p.calc_k0(silent=True).todict()
@@ -141,6 +155,7 @@ def configs(tier, seed):
         out.append({'model': model, 'm': 1, 'n': 4, 'variant': 'y1y2', 'group': 'k0y1y2:%s' % model, 's': 1 if model == 'kpanel' else 2})
         out.append({'model': model, 'm': 4, 'n': 1, 'variant': 'y1y2', 'group': 'k0y1y2:%s' % model, 's': 1 if model == 'kpanel' else 2})
         out.append({'model': model, 'm': 2, 'n': 2, 'variant': 'offset', 'off': 3 + seed % 4, 'group': 'placement:%s' % model, 's': 2})
+        out.append({'model': model, 'm': 1 if model == 'kpanel' else 2, 'n': 2, 'variant': 'offdiag', 'off': 1 + seed % 3, 'group': 'placement-off-the-diagonal:%s' % model, 's': 1 if model == 'kpanel' else 2})
         if model != 'kpanel' or not quick:
             out.append({'model': model, 'm': 2, 'n': 1, 'variant': 'offset', 'off': 2 + seed % 3, 'preload': True, 'group': 'placement-with-preload:%s' % model, 's': 1 if model == 'kpanel' else 2})
         out.append({'model': model, 'm': 2, 'n': 2 if model != 'kpanel' else 1, 'variant': 'preload', 'group': 'preload:%s' % model, 's': 2})
